@@ -59,6 +59,17 @@ def generate(seed, tier, index):
         if rf.chance(0.5):
             entries = "all"         # the whole-state function, reported in each rendering's own choice of units
         ac = rf.chance(0.5)         # with the chemostat mask applied (the default of the API)
+    cg = None
+    sps = spec["space"]
+    if sps["type"] == "grid" and all(b == "reflecting" for b in sps["bc"]) and rf.chance(0.4):
+        # the same run on a coarse-grained copy of the system (identity map, pairs of cells, or the last cell dropped):
+        # its result, too, is the same physical trajectory under every rendering
+        ncg = sps["w"] * sps["h"] * sps["d"]
+        cg = list(range(ncg))
+        if len(set(sps["cell_env"])) == 1 and ncg >= 2 and rf.chance(0.5):
+            cg = [i // 2 for i in range(ncg)]
+        elif ncg >= 2 and rf.chance(0.3):
+            cg = list(range(ncg - 1)) + [-1]
     for r in range(nr):
         ru = base.sub("render", r)
         us = uss[r]
@@ -103,6 +114,8 @@ def generate(seed, tier, index):
         if coobs:
             ops.append(["kinetics", entries, ac, gen.draw_us(ru)])
         ops += [["drive", [["iterate"], ["observe"]], C.fixed_steps_needed(sp) + 3], ["output"], ["finalize"]]
+        if cg is not None:
+            ops += [["simulate_cg", {"slices": [3, 2], "ms": 1000}, cg]]
         eps.append({"obj": r % 2, "kind": "euler", "via": rf.choice(["LibRDEngine", "factory"]), "script": r, "ops": ops})
     if rf.chance(0.2):
         # earlier in the process the caller ran the same model on a molecule-counting engine, with a script written in the
@@ -120,7 +133,7 @@ def generate(seed, tier, index):
                        "ops": [["setup"], ["iterate_n", 2], ["finalize"]], "warm": True})
     return {"format": 1, "property": ID, "seed": seed, "tier": tier, "index": index, "build": "plain",
             "scripts": scripts, "lifetimes": [{"pyseed": 1, "episodes": eps}],
-            "meta": {"renderings": nr, "styles": [s["phys"]["style"] for s in scripts[:nr]], "coobs": coobs}}
+            "meta": {"renderings": nr, "styles": [s["phys"]["style"] for s in scripts[:nr]], "coobs": coobs, "cg": cg is not None}}
 
 
 def check(case, results):
@@ -131,6 +144,25 @@ def check(case, results):
     m = Model(spec)
     ref = None
     nontrivial = 0
+    cg_ref = None
+    for ev in sorted(res.events, key=lambda e_: (e_["e"], e_["i"])):
+        if ev["op"] == "simulate_cg" and not ev.get("skipped"):
+            ctxc = {"class": "violation", "lifetime": 0, "episode": ev["e"], "op": ev["i"]}
+            if "exc" in ev:
+                viol.append(dict(ctxc, oracle="C04.no-exception", detail=ev["exc"] + "\n" + ev.get("tb", "")))
+                continue
+            d_ = np.frombuffer(ev["data"], dtype=np.float64) * si.QUANTITY[ev["data_unit"]]
+            t_ = np.frombuffer(ev["t"], dtype=np.float64) * si.TIME[ev["t_unit"]]
+            stats["coarse_grained_runs"] = stats.get("coarse_grained_runs", 0) + 1
+            if cg_ref is None:
+                cg_ref = (d_, t_, ev["e"])
+            elif d_.shape != cg_ref[0].shape or t_.shape != cg_ref[1].shape or (d_.size and (
+                    np.any(np.abs(d_ - cg_ref[0]) > 1e-9 * (np.abs(d_).max() + 1e-300)) or
+                    np.any(np.abs(t_ - cg_ref[1]) > 1e-9 * (np.abs(t_).max() + 1e-300)))):
+                viol.append(dict(ctxc, oracle="C04.same-coarse-grained-trajectory",
+                                 detail="the coarse-grained run of rendering #%d differs (in SI) from that of rendering #%d: "
+                                        "max |difference| %r molecules" % (ev["e"], cg_ref[2],
+                                                                          float(np.abs(d_ - cg_ref[0]).max()) if d_.shape == cg_ref[0].shape else None)))
     for ei, ep in enumerate(case["lifetimes"][0]["episodes"]):
         if ep.get("warm"):
             stats["prehistory_stochastic_run_in_the_same_units_object"] = 1
@@ -168,6 +200,9 @@ def check(case, results):
             for ev in res.events:
                 if ev["e"] == ei and ev["op"] == "kinetics" and "exc" not in ev and not ev.get("skipped"):
                     check_kinetics(ev, ep["ops"][ev["i"]], m, phys, v, stats, "C04", masked=bool(ep["ops"][ev["i"]][2]))
+            if h.outputs and not v:
+                # (shape, units and accessor facts of what the caller receives, in this rendering's output units)
+                traj.output_oracle(h, lambda apos: None, phys, m.ns, m.nc, v, stats, "C04")
             if h.outputs and not v:
                 out = h.outputs[-1][1]
                 us = phys["us"]
